@@ -6,6 +6,7 @@
 -/
 import RV.Facts.Generated
 import RV.Model.Wire
+import RV.Facts.Expected
 namespace RV.Facts
 open RV
 
@@ -17,5 +18,12 @@ theorem tie_lenBeyondBuffer : Generated.lenBeyondBuffer = 1 := by decide
 theorem tie_attrLenMin : Generated.attrLenMin = minAttrLength + 1 := by decide
 theorem tie_attrValMax : Generated.attrValMax = maxAttrValue + 1 := by decide
 theorem tie_marshalMax : Generated.marshalMax = maxPacketLength + 1 := by decide
+
+
+/-! C03: the per-code behaviour of `Encode` and `IsAuthenticRequest`, probed for every code 0..255
+    (and out-of-range codes of the Go `int`), equals the model's switch. -/
+theorem tie_encodeClass : Generated.encodeClass = Expected.encodeClass := by decide +kernel
+theorem tie_requestClass : Generated.requestClass = Expected.requestClass := by decide +kernel
+theorem tie_encodeClassOutOfRange : Generated.encodeClassOutOfRange = Expected.encodeClassOutOfRange := by decide +kernel
 
 end RV.Facts
